@@ -79,6 +79,23 @@ NewUuid(h) == /\ hs[h].k = "none"
                      /\ issued' = issued \cup {[id |-> app.id, ep |-> epoch[app.id], uuid |-> u]}
               /\ UNCHANGED <<app, epoch>>
 
+(* The same construction as the code really does it - a read of the settings, then (when nothing was there) a write -
+   with other constructions free to come in between.  Handlers stand for the AppUuidAttr objects of ALL running
+   instances of the application (two instances started together share the user's settings), so two of them may both
+   read "nothing there".  The atomic NewUuid above is what a single instance does when nobody else is around. *)
+UuidRead(h) == /\ hs[h].k = "none"
+               /\ app.id \in Apps
+               /\ hs' = [hs EXCEPT ![h] = [k |-> "reading", id |-> app.id, ver |-> "", uuid |-> store[app.id]]]
+               /\ UNCHANGED <<app, store, fresh, epoch, issued>>
+UuidWrite(h) == /\ hs[h].k = "reading"
+                /\ LET seen == hs[h].uuid
+                       u == IF seen = 0 THEN fresh + 1 ELSE seen
+                   IN  /\ fresh' = IF seen = 0 THEN fresh + 1 ELSE fresh
+                       /\ store' = IF seen = 0 THEN [store EXCEPT ![hs[h].id] = u] ELSE store     \* the last writer wins
+                       /\ hs' = [hs EXCEPT ![h] = [k |-> "uuid", id |-> hs[h].id, ver |-> "", uuid |-> u]]
+                       /\ issued' = issued \cup {[id |-> hs[h].id, ep |-> epoch[hs[h].id], uuid |-> u]}
+                /\ UNCHANGED <<app, epoch>>
+
 (* a message passes handler h: nothing changes - the answer is a function of the handler's own record *)
 Ask(h) == hs[h].k # "none" /\ UNCHANGED evars
 
@@ -98,6 +115,9 @@ ENext == \/ \E a \in Apps, v \in Vers : SetApp(a, v)
          \/ \E S \in SUBSET Apps : Restart(S)
 
 ESpec == EInit /\ [][ENext]_evars
+\* several instances of the application constructing their handlers at the same time
+ENextConc == ENext \/ \E h \in H : UuidRead(h) \/ UuidWrite(h)
+ESpecConc == EInit /\ [][ENextConc]_evars
 
 -----------------------------------------------------------------------------
 (* what the handlers owe *)
@@ -115,5 +135,5 @@ RenameIsLocal == [][(app'.id # app.id /\ app'.id # "-") => (hs' = hs /\ store' =
 
 TypeOK == /\ fresh \in Nat
           /\ \A a \in Apps : store[a] <= fresh
-          /\ \A h \in H : hs[h].k \in {"none", "info", "sys", "uuid"}
+          /\ \A h \in H : hs[h].k \in {"none", "info", "sys", "uuid", "reading"}
 =============================================================================
